@@ -354,6 +354,97 @@ def numpy_arguments_to_casadi(M, rec, rng, reps, mon):
         mon.enabled = was
 
 
+def retained_results(M, rec, rng, reps, mon):
+    """A caller keeps the result of one primitive call while making the next one with arguments of the same shapes (two
+    parameter sets, two candidate limits, a fine density grid of several thousand points): the kept result must still be
+    the value for ITS arguments afterwards, on both engines."""
+    import sym_metanet.engines.casadi as EC
+    import sym_metanet.engines.numpy as EN
+
+    was = mon.enabled
+    mon.enabled = False
+    try:
+        for it in range(reps):
+            side = ("numpy", "casadi")[it % 2]
+            E = EN if side == "numpy" else EC
+            N = rng.choice((1, 3, 7, 4096, 5000, 6000)) if it % 3 == 0 else rng.choice((1, 2, 3, 5, 9))
+            prim = ("Veq", "controlled_Veq", "get_flow", "step_density", "step_speed", "step_queue", "get_ramp_flow", "get_downstream_density")[(it // 2) % 8]
+            mk = (lambda xs: np.array(xs, float)) if side == "numpy" else (lambda xs: cs.DM(list(xs)))
+
+            def draw():
+                p = link_pars(rng)
+                rho = [rho_val(rng, p) for _ in range(min(N, 12))] * (N // min(N, 12) + 1)
+                rho = rho[:N]
+                v = [v_val(rng, p) for _ in range(min(N, 12))] * (N // min(N, 12) + 1)
+                v = v[:N]
+                T = 10 / 3600
+                if prim == "Veq":
+                    return (mk(rho), p["v_free"], p["rho_crit"], p["a"]), [R.veq(x, p["v_free"], p["rho_crit"], p["a"]) for x in rho]
+                if prim == "controlled_Veq":
+                    vsl = sorted(rng.sample(range(N), min(N, rng.randint(1, 3))))
+                    vc = [rng.uniform(10, 70) for _ in vsl]
+                    al = rng.choice((0.1, 0.0))
+                    exp = [R.veq(x, p["v_free"], p["rho_crit"], p["a"]) for x in rho]
+                    for i_, c_ in zip(vsl, vc):
+                        exp[i_] = min(exp[i_], (1 + al) * c_)
+                    return (mk(rho), mk(vc), vsl, al, p["v_free"], p["rho_crit"], p["a"]), exp
+                if prim == "get_flow":
+                    return (mk(rho), mk(v), p["lam"]), [a_ * b_ * p["lam"] for a_, b_ in zip(rho, v)]
+                if prim == "step_density":
+                    q = [a_ * b_ * p["lam"] for a_, b_ in zip(rho, v)]
+                    qu = [rng.uniform(0, 6000) for _ in range(N)]
+                    return ((mk(rho), mk(q), mk(qu), p["lam"], p["L"], T),
+                            [r_ + T / (p["lam"] * p["L"]) * (u_ - q_) for r_, q_, u_ in zip(rho, q, qu)])
+                if prim == "step_speed":
+                    vu = [v[0]] + v[:-1]
+                    rd = rho[1:] + [rho[-1]]
+                    Ve = [R.veq(x, p["v_free"], p["rho_crit"], p["a"]) for x in rho]
+                    tau, eta, kappa = 18 / 3600, 60.0, 40.0
+                    exp = [v_ + T / tau * (e_ - v_) + T / p["L"] * v_ * (u_ - v_) - eta * T / (tau * p["L"]) * (d_ - r_) / (r_ + kappa)
+                           for v_, u_, r_, d_, e_ in zip(v, vu, rho, rd, Ve)]
+                    return (mk(v), mk(vu), mk(rho), mk(rd), mk(Ve), p["lam"], p["L"], tau, eta, kappa, T), exp
+                if prim == "step_queue":
+                    w, d, q = rng.uniform(0, 500), rng.uniform(0, 5000), rng.uniform(0, 5000)
+                    sc = (lambda x: np.array([x])) if side == "numpy" else (lambda x: cs.DM(x))
+                    return (sc(w), sc(d), sc(q), T), [w + T * (d - q)]
+                if prim == "get_ramp_flow":
+                    C = rng.uniform(1200, 4500)
+                    d, w, r_ = rng.uniform(100, 7000), rng.uniform(0, 600), rng.random()
+                    sc = (lambda x: np.array([x])) if side == "numpy" else (lambda x: cs.DM(x))
+                    return ((sc(d), sc(w), C, sc(r_), p["rho_max"], sc(rho[0]), p["rho_crit"], T, "out"),
+                            [R.ramp_flow(d, w, C, r_, p["rho_max"], rho[0], p["rho_crit"], T, "out", [], "x")])
+                k_ = min(N, 4)
+                rf = [x + 1.0 for x in rho[:k_]]
+                return (mk(rf),), [sum(x * x for x in rf) / sum(rf)]
+
+            cls = {"Veq": "LinksEngine", "controlled_Veq": "LinksEngine", "get_flow": "LinksEngine", "step_density": "LinksEngine", "step_speed": "LinksEngine",
+                   "step_queue": "OriginsEngine", "get_ramp_flow": "OriginsEngine", "get_downstream_density": "NodesEngine"}[prim]
+            fn = getattr(getattr(E, cls), prim)
+            try:
+                a1, e1 = draw()
+                a2, e2 = draw()
+                r1 = fn(*a1)
+                first_now = np.asarray(cs.DM(r1) if side == "casadi" else r1, float).reshape(-1).copy()
+                r2 = fn(*a2)
+                first_later = np.asarray(cs.DM(r1) if side == "casadi" else r1, float).reshape(-1)
+                second = np.asarray(cs.DM(r2) if side == "casadi" else r2, float).reshape(-1)
+            except Exception as e:
+                rec.violation(f"{PROP}:{prim}: {side} implementation raised {type(e).__name__} on two consecutive calls with arguments of equal shapes",
+                              {"primitive": prim, "side": side, "N": N, "exception": repr(e)[:300]})
+                continue
+            rec.count("retained_result_pairs")
+            rec.seen("retained_result_sizes", (prim, side, "large" if N >= 4096 else "small"))
+            for what, got, exp in (("first result, read right after its call", first_now, e1), ("first result, read after the second call", first_later, e1),
+                                   ("second result", second, e2)):
+                ex = np.asarray(exp, float).reshape(-1)
+                if got.shape != ex.shape or not np.allclose(got, ex, rtol=1e-8, atol=1e-8, equal_nan=True):
+                    rec.violation(f"{PROP}:{prim}: {side}: of two consecutive calls with equally shaped arguments, the {what} is not the value for its own arguments",
+                                  {"primitive": prim, "side": side, "N": N, "got": got[:6].tolist(), "expected": ex[:6].tolist()})
+                    break
+    finally:
+        mon.enabled = was
+
+
 def run(M, rec, tier, seed, k, n):
     np.seterr(all="ignore")
     rng = random.Random(seed * 1000 + k + 1500)
@@ -365,6 +456,7 @@ def run(M, rec, tier, seed, k, n):
         batched.batched_primitives(M, rec, rng, PROP, 600 if tier == "quick" else 6000, monitors=(mon,))
         direct_calls(M, rec, rng, 12000 if tier == "quick" else 150000)
         numpy_arguments_to_casadi(M, rec, rng, 400 if tier == "quick" else 4000, mon)
+        retained_results(M, rec, rng, 480 if tier == "quick" else 4800, mon)
         W.numpy_steps(M, rec, rng, 150 if tier == "quick" else 1500, draws=2)
     finally:
         mon.uninstall()
